@@ -70,6 +70,28 @@ Theorem midpoint_sysop_is_weighted_sum : forall x y i,
   (G midpoint_sysop y) x i = midpoint_A x i.
 Proof. unfold midpoint_A; vf. Qed.
 
+(* homogeneity (scale invariance): the step is linear in (u_n, v_n, a_n, bN, F) and the unknown -- multiplying them
+   all by s multiplies the right-hand side, the system row, the evaluation-point states and the returned state by s;
+   so s x solves the scaled system wherever x solves the original one, and the scaled step returns s times the state *)
+Local Notation GS f s y := (f I K C M dt beta gamma alpha (vscal s u_n) (vscal s v_n) (vscal s a_n) y (vscal s bN) (vscal s F)).
+Theorem midpoint_step_homogeneous : forall s x i,
+  GS midpoint_rhs s (vscal s x) i = s * G midpoint_rhs x i /\
+  (GS midpoint_sysop s (vscal s x)) (vscal s x) i = s * midpoint_A x i /\
+  GS midpoint_up_u s (vscal s x) i = s * G midpoint_up_u x i /\
+  GS midpoint_up_v s (vscal s x) i = s * G midpoint_up_v x i /\
+  GS midpoint_up_a s (vscal s x) i = s * G midpoint_up_a x i /\
+  GS midpoint_ev_ut s (vscal s x) i = s * G midpoint_ev_ut x i /\
+  GS midpoint_ev_vt s (vscal s x) i = s * G midpoint_ev_vt x i /\
+  GS midpoint_ev_at s (vscal s x) i = s * G midpoint_ev_at x i.
+Proof. intros; unfold midpoint_A; repeat split; vf. Qed.
+
+Theorem midpoint_scaled_solution : forall s x i,
+  midpoint_A x i = G midpoint_rhs x i ->
+  (GS midpoint_sysop s (vscal s x)) (vscal s x) i = GS midpoint_rhs s (vscal s x) i.
+Proof.
+  intros s x i H. destruct (midpoint_step_homogeneous s x i) as [E1 [E2 _]]. rewrite E1, E2, H. reflexivity.
+Qed.
+
 (* row i of the system minus row i of the right-hand side of _Solver_Apply_Neumann
    = residual of the equation of motion at dof i *)
 Theorem midpoint_eom_identity : forall x i,
@@ -114,6 +136,8 @@ Print Assumptions midpoint_update_rule.
 Print Assumptions midpoint_eval_consistent.
 Print Assumptions midpoint_coefs_are_derivatives.
 Print Assumptions midpoint_sysop_is_weighted_sum.
+Print Assumptions midpoint_step_homogeneous.
+Print Assumptions midpoint_scaled_solution.
 Print Assumptions midpoint_eom_identity.
 Print Assumptions midpoint_discrete_eom.
 Print Assumptions midpoint_newton_consistent.
